@@ -15,6 +15,13 @@ import time as _walltime
 from . import util, evidence, findings
 
 VERIF = os.path.dirname(os.path.dirname(os.path.abspath(__file__)))
+
+
+def out_dirs():
+    """(replay dir, evidence dir); the self-tests redirect both so that runs against
+    mutated copies of /repo never touch the committed evidence."""
+    return (os.environ.get('PYDLSIM_REPLAY_DIR') or os.path.join(VERIF, 'replays'),
+            os.environ.get('PYDLSIM_EVIDENCE_DIR') or os.path.join(VERIF, 'evidence'))
 PY = sys.executable
 
 
@@ -184,12 +191,13 @@ def run_check(prop, tier, base, mod, workers=None, n_runs=None, deadline=None):
             seen_sig.add(key)
             reported.append((i, v, sig))
         out_lines = []
-        os.makedirs(os.path.join(VERIF, 'replays', prop), exist_ok=True)
+        replay_dir, evidence_dir = out_dirs()
+        os.makedirs(os.path.join(replay_dir, prop), exist_ok=True)
         for i, v, sig in reported:
             raw = os.path.join(scratch, 'out', 'viol-%d.json' % i)
             with open(raw, 'w') as f:
                 f.write(util.dumps(v['desc'], indent=1))
-            path = os.path.join(VERIF, 'replays', prop, '%d-%d.json' % (v['desc']['seed'], len(out_lines)))
+            path = os.path.join(replay_dir, prop, '%d-%d.json' % (v['desc']['seed'], len(out_lines)))
             try:
                 pr = sub(prop, [prop, '--shrink', raw, '--out', path], scratch, env)
                 if pr.returncode != 0 or not os.path.exists(path):
@@ -224,7 +232,7 @@ def run_check(prop, tier, base, mod, workers=None, n_runs=None, deadline=None):
                 errors.append('evidence not schema-valid: %s' % problems)
                 ev_ok = False
             else:
-                evidence.write(os.path.join(VERIF, 'evidence', prop + '.json'), ev)
+                evidence.write(os.path.join(evidence_dir, prop + '.json'), ev)
         else:
             errors.append('no run completed')
         print('pydlsim: %d/%d runs, %d evaluations, %d distinct non-trivial, %d violating executions, '
